@@ -216,3 +216,489 @@ Proof.
     + apply (IH ls' ltac:(lia) (TFn acc ps va) core rest dE rE Hleg' Hok' Hcore Hst Hnl Htail HrE).
     + exact HrE.
 Qed.
+
+(* ------------------------------------------------------------------ *)
+(* Part B: one template argument, tried as a type-id *)
+
+From CXV Require Import Parse.Using.
+
+Definition PHONYK : N := 9999.             (* PhonyEnding: not a token type of the lexer *)
+Definition phony : tk := mkTk PHONYK 0.
+Definition targ_terms : list N := [COMMA; GT; T_ELLIPSIS].
+
+Inductive targ := AType (t : ty) (pack : bool) | AVal (v : list tk) (pack : bool).
+
+Definition type_start (h : tk) : bool := memN (kty h) pqname_start_tokens || is T_const h || is T_volatile h.
+
+(* CxxParseError inside the trial (codes 1, 2: the bounded stream raises it at its end too) means: not a type *)
+Definition soft (e : N) : dres (option ty) := if (e =? 1) || (e =? 2) then DOk None else DErr e.
+
+Definition targ_type (fuel : nat) (raw : list tk) : dres (option ty) :=
+  match raw with
+  | [] => DOk None
+  | h :: _ =>
+      if negb (type_start h) then DOk None
+      else if alias_outside raw then DErr 4
+      else
+        match parse_base (raw ++ [phony]) with
+        | DErr e => soft e
+        | DOk (b, r) =>
+            match cvptr_g true fuel b r with
+            | DErr e => soft e
+            | DOk (d, r1) =>
+                let after := if is_fn d then DOk (d, r1)
+                             else match r1 with
+                                  | a :: r2 => if is LB a then arrtype fuel d a r2 else DOk (d, r1)
+                                  | [] => DOk (d, r1)
+                                  end in
+                match after with
+                | DErr e => soft e
+                | DOk (d', r2) =>
+                    match r2 with
+                    | [p] => if is PHONYK p then DOk (Some d') else DOk None
+                    | _ => DOk None
+                    end
+                end
+            end
+        end
+  end.
+
+(* the argument loop (entered after '<') *)
+Fixpoint tspec (n fuel : nat) (acc : list targ) (toks : list tk) {struct n} : dres (list targ * list tk) :=
+  match n with
+  | O => DErr 9
+  | S n' =>
+      match consume_value_until kty targ_terms toks with
+      | Ok (raw, r) =>
+          match targ_type fuel raw with
+          | DErr e => DErr e
+          | DOk ot =>
+              let '(pack, r1) := match r with
+                                 | e :: r' => if is T_ELLIPSIS e then (true, r') else (false, r)
+                                 | [] => (false, r)
+                                 end in
+              let arg : dres targ :=
+                match ot with
+                | Some t => DOk (AType t pack)
+                | None =>
+                    if pack then
+                      match rev raw with
+                      | [] => DErr 3                                (* val.tokens[-1] of an empty value *)
+                      | l :: _ => if is T_sizeof l then DErr 4 else DOk (AVal raw pack)    (* sizeof...(x): outside *)
+                      end
+                    else DOk (AVal raw pack)
+                end in
+              match arg with
+              | DErr e => DErr e
+              | DOk a =>
+                  match r1 with
+                  | s :: r2 => if is COMMA s then tspec n' fuel (a :: acc) r2
+                               else if is GT s then DOk (rev (a :: acc), r2)
+                               else DErr 1
+                  | [] => DErr 2
+                  end
+              end
+          end
+      | ErrEOF => DErr 2
+      | ErrUnexpected _ => DErr 1
+      | ErrInternal => DErr 3
+      end
+  end.
+
+(* ------------------------------------------------------------------ *)
+(* the printed declarator is one expression of the value grammar *)
+
+Notation Ex := (Expr tk kty targ_terms).
+
+Lemma Ex_app l1 l2 : Ex l1 -> Ex l2 -> Ex (l1 ++ l2).
+Proof.
+  intros H1 H2. induction H1 as [|t l Hm Ho Hc Hl IH|a b c la lb Hm Ho Hc Hb Ha Hlb IH|a b la lb Hm Ho Hb Ha Hlb IH].
+  - exact H2.
+  - cbn [app]. apply Ex_plain; assumption.
+  - cbn [app]. rewrite <- app_assoc. cbn [app]. eapply Ex_group; eassumption.
+  - cbn [app]. rewrite <- app_assoc. cbn [app]. eapply Ex_angle; eassumption.
+Qed.
+
+Definition plain_t (c : N) : bool :=
+  negb (memN c targ_terms) && negb (memN c end_balanced_tokens) && match assocN c balanced_token_map with None => true | Some _ => false end.
+
+Lemma Ex_tok t l : plain_t (kty t) = true -> Ex l -> Ex (t :: l).
+Proof.
+  unfold plain_t. intros H Hl. apply andb_prop in H as [H H3]. apply andb_prop in H as [H1 H2].
+  apply negb_true_iff in H1, H2.
+  apply Ex_plain; [exact H1| | |exact Hl].
+  - destruct (assocN (kty t) balanced_token_map); [discriminate|reflexivity].
+  - rewrite H2. reflexivity.
+Qed.
+
+Lemma Ex_cvtoks c v l : Ex l -> Ex (cvtoks c v ++ l).
+Proof. intros H. destruct c, v; cbn [cvtoks app]; repeat (apply Ex_tok; [reflexivity|]); exact H. Qed.
+
+Lemma Ex_paren inner l : SNk inner -> Ex l -> Ex (ktok LP :: inner ++ ktok RP :: l).
+Proof.
+  intros Hs Hl. eapply (Ex_group tk kty targ_terms (ktok LP) (ktok RP) RP); [reflexivity|reflexivity|vm_compute; discriminate|reflexivity|exact Hs|exact Hl].
+Qed.
+Lemma Ex_bracket inner l : SNk inner -> Ex l -> Ex (ktok LB :: inner ++ ktok RB :: l).
+Proof.
+  intros Hs Hl. eapply (Ex_group tk kty targ_terms (ktok LB) (ktok RB) RB); [reflexivity|reflexivity|vm_compute; discriminate|reflexivity|exact Hs|exact Hl].
+Qed.
+
+Lemma Ex_P : forall ls core, Forall layer_ok ls -> SNk core -> Ex core -> Ex (P ls core).
+Proof.
+  induction ls as [|l r IH]; intros core Hok Hs Hc; [exact Hc|].
+  inversion Hok as [|? ? Hl Hr]; subst.
+  destruct l as [c v| | |s|ps va]; cbn [P].
+  - apply Ex_tok; [reflexivity|]. apply Ex_cvtoks. now apply IH.
+  - apply Ex_tok; [reflexivity|]. now apply IH.
+  - apply Ex_tok; [reflexivity|]. now apply IH.
+  - destruct (starts_pfx r); cbn [paren].
+    + cbn [app]. rewrite <- app_assoc. cbn [app]. apply Ex_paren; [now apply SN_params_toks_of|].
+      change (ktok LB :: s ++ [ktok RB]) with (ktok LB :: s ++ ktok RB :: []). apply Ex_bracket; [exact Hl|constructor].
+    + apply Ex_app; [now apply IH|].
+      change (ktok LB :: s ++ [ktok RB]) with (ktok LB :: s ++ ktok RB :: []). apply Ex_bracket; [exact Hl|constructor].
+  - destruct Hl as [Hsn _]. destruct (starts_pfx r); cbn [paren].
+    + cbn [app]. rewrite <- app_assoc. cbn [app]. apply Ex_paren; [now apply SN_params_toks_of|].
+      change (ktok LP :: params_toks ps va ++ [ktok RP]) with (ktok LP :: params_toks ps va ++ ktok RP :: []). apply Ex_paren; [exact Hsn|constructor].
+    + apply Ex_app; [now apply IH|].
+      change (ktok LP :: params_toks ps va ++ [ktok RP]) with (ktok LP :: params_toks ps va ++ ktok RP :: []). apply Ex_paren; [exact Hsn|constructor].
+Qed.
+
+Lemma Ex_decl t : DeclSpec.wf t -> Ex (decl_toks t None).
+Proof.
+  intros Hwf. destruct (decl_view t None) as (b & c & v & Ed & _). rewrite Ed. unfold base_toks3, name_tok.
+  rewrite <- app_assoc. apply Ex_cvtoks. cbn [app].
+  assert (Hp : Ex (P (layers t) (name_toks None))).
+  { apply Ex_P; [now apply layers_ok|constructor|constructor]. }
+  destruct (b =? 0); (apply Ex_tok; [reflexivity|exact Hp]).
+Qed.
+
+(* ------------------------------------------------------------------ *)
+(* the outermost function layer *)
+
+Lemma sfx_fn_single : forall ls k, legalL k ls = true -> all_sfx ls = true -> kind_end k ls = KFn -> ls <> [] ->
+  exists ps va, ls = [LFn ps va].
+Proof.
+  induction ls as [|l r IH]; intros k Hl Ha Hk Hne; [contradiction|].
+  cbn [legalL] in Hl. apply andb_prop in Hl as [Hokl Hl].
+  assert (Har : all_sfx r = true).
+  { cbn [all_sfx forallb] in Ha. apply andb_prop in Ha as [_ Ha]. exact Ha. }
+  destruct r as [|l2 r2].
+  - unfold kind_end in Hk. cbn [fold_left] in Hk. destruct l; try discriminate Hk. now exists ps, va.
+  - exfalso.
+    assert (Hk' : kind_end (kind_after l) (l2 :: r2) = KFn) by exact Hk.
+    destruct (IH (kind_after l) Hl Har Hk' ltac:(discriminate)) as (ps & va & E). inversion E; subst.
+    cbn [legalL] in Hl. apply andb_prop in Hl as [H2 _].
+    cbn [all_sfx forallb] in Ha. apply andb_prop in Ha as [Ha _].
+    destruct l; try discriminate Ha; discriminate H2.
+Qed.
+
+Lemma trail_fn : forall ls k, legalL k ls = true -> kind_end k ls = KFn -> ls <> [] ->
+  exists ps va, traill ls = [LFn ps va].
+Proof.
+  induction ls as [|l r IH]; intros k Hl Hk Hne; [contradiction|].
+  destruct (all_sfx (l :: r)) eqn:E.
+  - rewrite (traill_all _ E). exact (sfx_fn_single (l :: r) k Hl E Hk Hne).
+  - rewrite (traill_cons _ _ E).
+    cbn [legalL] in Hl. apply andb_prop in Hl as [Hokl Hl].
+    destruct r as [|l2 r2].
+    + exfalso. unfold kind_end in Hk. cbn [fold_left] in Hk.
+      cbn [all_sfx forallb andb] in E. rewrite andb_true_r in E. apply negb_false_iff in E.
+      destruct l; try discriminate E; discriminate Hk.
+    + apply (IH (kind_after l) Hl); [exact Hk|discriminate].
+Qed.
+
+(* the first token of a printed parameter list is neither a prefix operator nor a parenthesis *)
+Lemma decl_head t nm X : exists h r, decl_toks t nm ++ X = h :: r /\ is_pfx_tok h = false /\ is LP h = false.
+Proof.
+  destruct (decl_view t nm) as (b & c & v & Ed & _). rewrite Ed. unfold base_toks3, name_tok.
+  destruct c, v; cbn [cvtoks app]; try (eexists; eexists; split; [reflexivity|split; reflexivity]).
+  destruct (b =? 0); eexists; eexists; (split; [reflexivity|split; reflexivity]).
+Qed.
+
+Lemma params_head ps va X : exists h r, params_toks ps va ++ ktok RP :: X = h :: r /\ is_pfx_tok h = false /\ is LP h = false.
+Proof.
+  unfold params_toks. destruct ps as [|[t nm] q].
+  - cbn [map app]. destruct va; cbn [va_toks join_comma app]; eexists; eexists; (split; [reflexivity|split; reflexivity]).
+  - cbn [map app fst snd].
+    destruct (map (fun p : ty * option N => decl_toks (fst p) (snd p)) q ++ va_toks va) as [|y ys].
+    + cbn [join_comma]. apply decl_head.
+    + cbn [join_comma]. rewrite <- app_assoc. apply decl_head.
+Qed.
+
+Lemma fn_tail_true d ps va rest :
+  is_fn d = false -> layer_ok (LFn ps va) ->
+  stops rest = true -> lp_head rest = false -> (match rest with a :: _ => is T_ARROW a = false | [] => True end) ->
+  ev (fun f => cvptr_g true f d (ktok LP :: params_toks ps va ++ ktok RP :: rest)) (DOk (TFn d ps va, rest)).
+Proof.
+  intros Hnf [_ Hprm] Hst Hlp Har. destruct (Hprm rest) as [f0 H0].
+  exists (S (S f0)). intros f Hf. destruct f as [|f]; [lia|]. rewrite cvptr_gS. isc.
+  destruct (params_head ps va rest) as (h & r & E & Hp & Hl). rewrite E. rewrite Hp.
+  cbn [strip_parens]. rewrite Hl. rewrite <- E. rewrite (H0 f) by lia. rewrite Hnf.
+  destruct f as [|f']; [lia|].
+  destruct rest as [|a r']; [now apply gcvptr_stops|]. rewrite Har. now apply gcvptr_stops.
+Qed.
+
+(* ------------------------------------------------------------------ *)
+(* a printed type-id is decoded as that type *)
+
+Lemma phony_stops : stops [phony] = true /\ lp_head [phony] = false /\ nolb [phony] = true /\ nocv [phony] = true.
+Proof. repeat split. Qed.
+
+Lemma sufs_head_ok arrs : stops (sufs arrs ++ [phony]) = true /\ lp_head (sufs arrs ++ [phony]) = false.
+Proof.
+  destruct arrs as [|s r]; [split; reflexivity|].
+  rewrite sufs_rev. destruct (rev (s :: r)) as [|o os] eqn:Erev.
+  { apply (f_equal (@length _)) in Erev. rewrite rev_length in Erev. discriminate. }
+  split; reflexivity.
+Qed.
+
+(* an object type (not a function at the top): the loop leaves the trailing arrays *)
+Lemma gdecl_nonfn b c v ls :
+  legalL KB ls = true -> Forall layer_ok ls -> kind_end KB ls <> KFn ->
+  exists arrs d,
+    Forall SNk arrs /\ (arrs <> [] -> is_ref d = false) /\ is_fn d = false /\
+    wrap d (map LArr arrs) = wrap (TBase b c v) ls /\
+    ev (fun f => cvptr_g true f (TBase b c v) (P ls [] ++ [phony])) (DOk (d, sufs arrs ++ [phony])).
+Proof.
+  intros Hleg Hok Hk.
+  destruct (trail_arrs ls KB Hleg Hk) as [arrs Ha].
+  exists arrs, (wrap (TBase b c v) (mainl ls)).
+  assert (Hsplit : ls = mainl ls ++ map LArr arrs) by (rewrite <- Ha; symmetry; apply main_trail).
+  destruct (sufs_head_ok arrs) as [Hs1 Hs2].
+  split; [|split; [|split; [|split]]].
+  - assert (H : Forall layer_ok (map LArr arrs)).
+    { rewrite Hsplit in Hok. apply Forall_app in Hok. exact (proj2 Hok). }
+    clear -H. induction arrs as [|s r IH]; [constructor|].
+    inversion H; subst. constructor; [assumption|now apply IH].
+  - intros Hne. apply not_ref_of_kind. rewrite kind_wrap. cbn [kind_of].
+    rewrite Hsplit, legalL_app in Hleg. apply andb_prop in Hleg as [_ Hleg].
+    destruct arrs as [|s r]; [contradiction|]. cbn [map legalL] in Hleg.
+    apply andb_prop in Hleg as [Hokl _]. intros E. rewrite E in Hokl. discriminate.
+  - now apply main_not_fn.
+  - unfold wrap. rewrite <- fold_left_app. now rewrite <- Hsplit.
+  - apply (cvptr_P_gen true (length ls) ls (le_n _) (TBase b c v) [] [phony]); try assumption.
+    + constructor.
+    + rewrite Ha, P_only_arrs. cbn [app]. exact Hs1.
+    + reflexivity.
+    + rewrite Ha, P_only_arrs. cbn [app]. now apply gev_stops.
+Qed.
+
+(* a function type at the top: the loop takes the parameter list *)
+Lemma gdecl_fn b c v ls :
+  legalL KB ls = true -> Forall layer_ok ls -> kind_end KB ls = KFn ->
+  ev (fun f => cvptr_g true f (TBase b c v) (P ls [] ++ [phony])) (DOk (wrap (TBase b c v) ls, [phony])).
+Proof.
+  intros Hleg Hok Hk.
+  assert (Hne : ls <> []) by (intros E; rewrite E in Hk; discriminate).
+  destruct (trail_fn ls KB Hleg Hk Hne) as (ps & va & Ha).
+  assert (Hsplit : ls = mainl ls ++ [LFn ps va]) by (rewrite <- Ha; symmetry; apply main_trail).
+  assert (Hw : wrap (TBase b c v) ls = TFn (wrap (TBase b c v) (mainl ls)) ps va).
+  { rewrite Hsplit at 1. unfold wrap. rewrite fold_left_app. reflexivity. }
+  rewrite Hw.
+  assert (Hlfn : layer_ok (LFn ps va)).
+  { rewrite Hsplit in Hok. apply Forall_app in Hok. destruct Hok as [_ Hok]. now inversion Hok. }
+  apply (cvptr_P_gen true (length ls) ls (le_n _) (TBase b c v) [] [phony]); try assumption.
+  - constructor.
+  - rewrite Ha. cbn [P paren starts_pfx app]. rewrite <- app_assoc. cbn [app].
+    destruct (params_head ps va [phony]) as (h1 & r1 & E1 & Hp1 & _).
+    cbn [stops]. isc. rewrite E1. now rewrite Hp1.
+  - reflexivity.
+  - rewrite Ha. cbn [P paren starts_pfx app]. rewrite <- app_assoc. cbn [app].
+    apply fn_tail_true; try reflexivity; [|exact Hlfn].
+    now apply main_not_fn.
+  - reflexivity.
+Qed.
+
+Lemma kd_fn_dec (k : kd) : {k = KFn} + {k <> KFn}.
+Proof. destruct k; [right|right|right|left]; congruence. Qed.
+
+Theorem targ_type_decodes t : DeclSpec.wf t ->
+  ev (fun f => targ_type f (decl_toks t None)) (DOk (Some t)).
+Proof.
+  intros Hwf. destruct (decl_view t None) as (b & c & v & Ed & Ew).
+  pose proof (legal_layers t Hwf) as Hleg. pose proof (layers_ok t Hwf) as Hok.
+  assert (Hout : alias_outside (decl_toks t None) = false).
+  { rewrite <- (app_nil_r (decl_toks t None)). now apply alias_outside_printed. }
+  assert (Hhead : exists h r, decl_toks t None = h :: r /\ type_start h = true).
+  { rewrite Ed. unfold base_toks3, name_tok.
+    destruct c, v; cbn [cvtoks app]; try (eexists; eexists; split; reflexivity).
+    destruct (b =? 0); eexists; eexists; split; reflexivity. }
+  destruct Hhead as (h & r0 & Eh & Hts).
+  assert (Hpb : parse_base (decl_toks t None ++ [phony]) = DOk (TBase b c v, P (layers t) [] ++ [phony])).
+  { rewrite Ed, <- app_assoc. apply parse_base_rt. apply (nocv_P None). reflexivity. }
+  assert (Hpre : forall f, targ_type f (decl_toks t None) =
+            match cvptr_g true f (TBase b c v) (P (layers t) [] ++ [phony]) with
+            | DErr e => soft e
+            | DOk (d, r1) =>
+                let after := if is_fn d then DOk (d, r1)
+                             else match r1 with
+                                  | a :: r2 => if is LB a then arrtype f d a r2 else DOk (d, r1)
+                                  | [] => DOk (d, r1)
+                                  end in
+                match after with
+                | DErr e => soft e
+                | DOk (d', r2) =>
+                    match r2 with
+                    | [p] => if is PHONYK p then DOk (Some d') else DOk None
+                    | _ => DOk None
+                    end
+                end
+            end).
+  { intros f. unfold targ_type. rewrite Eh. rewrite Hts. cbn [negb]. rewrite <- Eh. rewrite Hout. now rewrite Hpb. }
+  destruct (kd_fn_dec (kind_of t)) as [Ek|Ek].
+  - (* a function type at the top *)
+    destruct (gdecl_fn b c v (layers t) Hleg Hok ltac:(now rewrite kind_layers)) as [f1 H1].
+    rewrite Ew in H1.
+    exists f1. intros f Hf. rewrite Hpre, (H1 f Hf).
+    destruct t; try (exfalso; cbn in Ek; discriminate). reflexivity.
+  - destruct (gdecl_nonfn b c v (layers t) Hleg Hok ltac:(now rewrite kind_layers)) as (arrs & d & Hsn & Hnr & Hnf & Hw & [f1 H1]).
+    rewrite Ew in Hw.
+    destruct arrs as [|s r].
+    + cbn [map wrap fold_left] in Hw. subst d. cbn [sufs app] in H1.
+      exists f1. intros f Hf. rewrite Hpre, (H1 f Hf). rewrite Hnf. reflexivity.
+    + destruct (arr_tail d (s :: r) [phony] ltac:(discriminate) (Hnr ltac:(discriminate)) Hsn eq_refl) as (A & EA & [f2 H2]).
+      rewrite EA in H1. rewrite Hw in H2.
+      exists (Nat.max f1 f2). intros f Hf. rewrite Hpre, (H1 f) by lia. rewrite Hnf. isc. rewrite (H2 f) by lia. reflexivity.
+Qed.
+
+(* ------------------------------------------------------------------ *)
+(* the argument list *)
+
+Inductive warg := WType (t : ty) (pack : bool) | WVal (v : list tk) (pack : bool).
+Definition araw (a : warg) : list tk := match a with WType t _ => decl_toks t None | WVal v _ => v end.
+Definition apack (a : warg) : bool := match a with WType _ p | WVal _ p => p end.
+Definition warg_toks (a : warg) : list tk := araw a ++ (if apack a then [ktok T_ELLIPSIS] else []).
+Definition warg_out (a : warg) : targ := match a with WType t p => AType t p | WVal v p => AVal v p end.
+Definition warg_ok (a : warg) : Prop :=
+  match a with
+  | WType t _ => DeclSpec.wf t
+  | WVal v p =>
+      Ex v /\ (match v with h :: _ => type_start h = false | [] => p = false end) /\
+      (p = true -> match rev v with l :: _ => is T_sizeof l = false | [] => False end)
+  end.
+
+Fixpoint targs_toks (l : list warg) : list tk :=
+  match l with
+  | [] => []
+  | [a] => warg_toks a
+  | a :: q => warg_toks a ++ ktok COMMA :: targs_toks q
+  end.
+
+Lemma tspec_S n fuel acc toks : tspec (S n) fuel acc toks =
+      match consume_value_until kty targ_terms toks with
+      | Ok (raw, r) =>
+          match targ_type fuel raw with
+          | DErr e => DErr e
+          | DOk ot =>
+              let '(pack, r1) := match r with
+                                 | e :: r' => if is T_ELLIPSIS e then (true, r') else (false, r)
+                                 | [] => (false, r)
+                                 end in
+              let arg : dres targ :=
+                match ot with
+                | Some t => DOk (AType t pack)
+                | None =>
+                    if pack then
+                      match rev raw with
+                      | [] => DErr 3
+                      | l :: _ => if is T_sizeof l then DErr 4 else DOk (AVal raw pack)
+                      end
+                    else DOk (AVal raw pack)
+                end in
+              match arg with
+              | DErr e => DErr e
+              | DOk a =>
+                  match r1 with
+                  | s :: r2 => if is COMMA s then tspec n fuel (a :: acc) r2
+                               else if is GT s then DOk (rev (a :: acc), r2)
+                               else DErr 1
+                  | [] => DErr 2
+                  end
+              end
+          end
+      | ErrEOF => DErr 2
+      | ErrUnexpected _ => DErr 1
+      | ErrInternal => DErr 3
+      end.
+Proof. reflexivity. Qed.
+
+Lemma araw_Ex a : warg_ok a -> Ex (araw a).
+Proof. destruct a as [t p|v p]; cbn [warg_ok araw]; [apply Ex_decl|intros (H & _); exact H]. Qed.
+
+Lemma item_value a sep R : warg_ok a -> (is COMMA sep = true \/ is GT sep = true) ->
+  consume_value_until kty targ_terms (warg_toks a ++ sep :: R)
+  = Ok (araw a, (if apack a then [ktok T_ELLIPSIS] else []) ++ sep :: R).
+Proof.
+  intros Hok Hsep. unfold warg_toks. rewrite <- app_assoc.
+  apply value_is_whole; [now apply araw_Ex|].
+  destruct (apack a); cbn [app stops_at]; [reflexivity|].
+  unfold is in Hsep. destruct Hsep as [H|H]; apply N.eqb_eq in H; rewrite H; reflexivity.
+Qed.
+
+Lemma item_type a : warg_ok a ->
+  ev (fun f => targ_type f (araw a)) (DOk (match a with WType t _ => Some t | WVal _ _ => None end)).
+Proof.
+  destruct a as [t p|v p]; cbn [warg_ok araw].
+  - apply targ_type_decodes.
+  - intros (_ & Hh & _). exists 0%nat. intros f _. unfold targ_type.
+    destruct v as [|h r]; [reflexivity|]. now rewrite Hh.
+Qed.
+
+(* what one step of the loop does with a written argument and its separator *)
+Lemma item_step a sep R : warg_ok a -> (is COMMA sep = true \/ is GT sep = true) ->
+  exists f0, forall f, (f0 <= f)%nat -> forall n acc,
+    tspec (S n) f acc (warg_toks a ++ sep :: R) =
+      if is COMMA sep then tspec n f (warg_out a :: acc) R else DOk (rev (warg_out a :: acc), R).
+Proof.
+  intros Hok Hsep. destruct (item_type a Hok) as [f0 H0]. exists f0. intros f Hf n acc.
+  rewrite tspec_S, (item_value a sep R Hok Hsep), (H0 f Hf).
+  assert (Hse : is T_ELLIPSIS sep = false).
+  { unfold is in *. destruct Hsep as [H|H]; apply N.eqb_eq in H; rewrite H; reflexivity. }
+  assert (Hfin : forall x : targ,
+            match sep :: R with
+            | s :: r2 => if is COMMA s then tspec n f (x :: acc) r2 else if is GT s then DOk (rev (x :: acc), r2) else DErr 1
+            | [] => DErr 2
+            end = if is COMMA sep then tspec n f (x :: acc) R else DOk (rev (x :: acc), R)).
+  { intros x. destruct (is COMMA sep) eqn:Ec; [reflexivity|]. destruct Hsep as [H|H]; [discriminate|]. now rewrite H. }
+  destruct a as [t p|v p]; cbn [apack warg_out araw] in *.
+  - destruct p; cbn [app].
+    + change (is T_ELLIPSIS (ktok T_ELLIPSIS)) with true. cbn iota. apply Hfin.
+    + rewrite Hse. apply Hfin.
+  - destruct Hok as (_ & Hh & Hl). destruct p; cbn [app].
+    + change (is T_ELLIPSIS (ktok T_ELLIPSIS)) with true. cbn iota.
+      specialize (Hl eq_refl). destruct (rev v) as [|l rv]; [contradiction|]. rewrite Hl. apply Hfin.
+    + rewrite Hse. apply Hfin.
+Qed.
+
+Lemma tspec_rt : forall args acc rest n, args <> [] -> Forall warg_ok args -> (length args <= n)%nat ->
+  ev (fun f => tspec n f acc (targs_toks args ++ ktok GT :: rest)) (DOk (rev acc ++ map warg_out args, rest)).
+Proof.
+  induction args as [|a q IH]; intros acc rest n Hne Hok Hn; [contradiction|].
+  inversion Hok as [|? ? Ha Hq]; subst.
+  destruct n as [|n]; [cbn in Hn; lia|]. cbn [length] in Hn.
+  destruct q as [|a2 q'].
+  - cbn [targs_toks].
+    destruct (item_step a (ktok GT) rest Ha (or_intror eq_refl)) as [f0 H0].
+    exists f0. intros f Hf. rewrite (H0 f Hf). change (is COMMA (ktok GT)) with false. cbn iota.
+    reflexivity.
+  - change (targs_toks (a :: a2 :: q')) with (warg_toks a ++ ktok COMMA :: targs_toks (a2 :: q')).
+    rewrite <- app_assoc. cbn [app].
+    destruct (item_step a (ktok COMMA) (targs_toks (a2 :: q') ++ ktok GT :: rest) Ha (or_introl eq_refl)) as [f0 H0].
+    destruct (IH (warg_out a :: acc) rest n ltac:(discriminate) Hq ltac:(cbn [length] in *; lia)) as [f1 H1].
+    exists (Nat.max f0 f1). intros f Hf. rewrite (H0 f) by lia. change (is COMMA (ktok COMMA)) with true. cbn iota.
+    rewrite (H1 f) by lia. cbn [rev map]. now rewrite <- app_assoc.
+Qed.
+
+(* `< T1, T2..., v3 >`: every argument once, in order, as the kind it was written as -- a type-id (any legal type tree,
+   function types included) as that type, anything that does not start like a type as its raw tokens -- with its own
+   pack flag; what follows the '>' is untouched *)
+Theorem template_arguments_roundtrip args rest :
+  args <> [] -> Forall warg_ok args ->
+  ev (fun f => tspec (S (length args)) f [] (targs_toks args ++ ktok GT :: rest)) (DOk (map warg_out args, rest)).
+Proof. intros H1 H2. exact (tspec_rt args [] rest (S (length args)) H1 H2 ltac:(lia)). Qed.
+
+Example ex_targs :
+  let fn := TFn (TBase 0 false false) [(TPtr (TBase 5 true false) false false, None)] false in
+  tspec 4 30 [] (targs_toks [WType fn false; WVal [mkTk T_INT_CONST_DEC 3] false; WType (TRef (TBase 6 false false)) true] ++ [ktok GT; ktok SEMI])
+  = DOk ([AType fn false; AVal [mkTk T_INT_CONST_DEC 3] false; AType (TRef (TBase 6 false false)) true], [ktok SEMI]).
+Proof. vm_compute. reflexivity. Qed.
